@@ -50,6 +50,7 @@ type rewriter struct {
 	errs    []string
 	curFile string
 	curFunc string
+	shared  bool // inside a function that mentions aliasable package-level storage
 }
 
 func (r *rewriter) tmp(p string) *ast.Ident {
@@ -161,7 +162,43 @@ func (r *rewriter) funcBody(b *ast.BlockStmt) {
 	if b == nil {
 		return
 	}
+	saved := r.shared
+	r.shared = r.mentionsSharedStorage(b)
 	b.List = append([]ast.Stmt{r.tick()}, r.block(b.List)...)
+	r.shared = saved
+}
+
+// mentionsSharedStorage reports whether a function body refers to a package-level variable
+// through which memory can be shared by alias (array, slice, map, pointer, struct, interface).
+// Inside such a function every statement gets a scheduling point (rewrite R3b): once `buf :=
+// scratch[:]` has been executed, writes through buf are writes to shared memory that no
+// identifier-based analysis sees.
+func (r *rewriter) mentionsSharedStorage(b *ast.BlockStmt) bool {
+	found := false
+	ast.Inspect(b, func(n ast.Node) bool {
+		if found {
+			return false
+		}
+		var e ast.Expr
+		switch v := n.(type) {
+		case *ast.FuncLit:
+			return false
+		case *ast.Ident:
+			e = v
+		case *ast.SelectorExpr:
+			e = v
+		default:
+			return true
+		}
+		if obj := r.globalOf(e); obj != nil {
+			switch obj.Type().Underlying().(type) {
+			case *types.Array, *types.Slice, *types.Map, *types.Pointer, *types.Struct, *types.Interface:
+				found = true
+			}
+		}
+		return true
+	})
+	return found
 }
 
 func (r *rewriter) loopBody(b *ast.BlockStmt) {
@@ -171,6 +208,14 @@ func (r *rewriter) loopBody(b *ast.BlockStmt) {
 func (r *rewriter) block(list []ast.Stmt) []ast.Stmt {
 	var out []ast.Stmt
 	for _, s := range list {
+		if r.shared {
+			switch s.(type) {
+			case *ast.DeclStmt, *ast.EmptyStmt, *ast.LabeledStmt:
+			default:
+				r.stats["shared-storage-point"]++
+				out = append(out, &ast.ExprStmt{X: r.call("Yield", &ast.BasicLit{Kind: token.STRING, Value: fmt.Sprintf("%q", "shared-storage@"+r.fset.Position(s.Pos()).String())})})
+			}
+		}
 		out = append(out, r.stmt(s, nil)...)
 	}
 	return out
